@@ -71,8 +71,22 @@ def has_slash(g):
     return False
 
 
+def model_tree(t):
+    """raw traversal tree in the shape the model prints (physical string encoding flags dropped)"""
+    if "g" in t:
+        return {"g": [[k, model_tree(v)] for k, v in t["g"]]}
+    d = t["ds"]
+    if d["kind"] == "str":
+        return {"ds": {"kind": "str", "shape": d["shape"], "v": d["v"]}}
+    return {"ds": {"kind": "num", "dtype": d["dtype"], "shape": d["shape"], "x": d["x"]}}
+
+
 def run(ctx):
+    import h5raw
+    from core import run_graph_ops
     rng = ctx.rng
+    cases, obs, reqs = [], [], []
+    cases2, obs2, reqs2 = [], [], []
     tmpdir = tempfile.mkdtemp(prefix="nirverif-c01-", dir="/var/tmp")
     try:
         for i in range(ctx.n(300)):
@@ -88,6 +102,18 @@ def run(ctx):
                 continue
             status, res = roundtrip(graph, target, tmpdir)
             ctx.count(status)
+            # correspondence: the model's file tree / rejection and the model's read-back
+            c1 = {"op": "write", "graph": g, "version": "v"}
+            if status == "write-rejected":
+                cases.append(c1); obs.append({"rejected": True}); reqs.append(c1)
+            elif target != "bytesio":
+                import nir
+                tree = model_tree(h5raw.traverse_file(os.path.join(tmpdir, "g.nir")))
+                tree["g"] = [[k, (v if k != "version" else {"ds": {"kind": "str", "shape": [], "v": "v"}})] for k, v in tree["g"]]
+                cases.append(c1); obs.append({"file": tree}); reqs.append(c1)
+                c2 = {"op": "graph", "graph": g, "ops": ["file_rt"]}
+                steps, _ = run_graph_ops(g, ["file_rt"])
+                cases2.append(c2); obs2.append({"steps": steps}); reqs2.append(c2)
             if status == "write-rejected":
                 continue         # outside the claim
             sig_name = "slash" if has_slash(g) else "plain"
@@ -105,6 +131,8 @@ def run(ctx):
             if ft:
                 ctx.violate(case, "types of the read graph differ from fresh construction",
                             {"site": "roundtrip", "what": "fresh-types"}, observed=ft[:5])
+        ctx.compare("files", cases, obs, reqs)
+        ctx.compare("files", cases2, obs2, reqs2)
     finally:
         import shutil
         shutil.rmtree(tmpdir, ignore_errors=True)
